@@ -485,15 +485,59 @@ std::vector<typename Op::A> const& xvals()
     }
 }
 
+// ---- out-of-line reporting (keeps the per-instantiation code small)
+struct Arg {
+    i128 v;
+    int width;
+};
+template <class T>
+Arg arg(T x)
+{
+    return Arg{i128(x), W<T>};
+}
+inline std::string show(Arg a)
+{
+    char b[40];
+    unsigned long long u = (unsigned long long)(a.v);
+    if (a.width < 64) { u &= (1ull << a.width) - 1; }
+    std::snprintf(b, sizeof b, " (0x%0*llx)", a.width / 4, u);
+    return s128(a.v) + b;
+}
+template <class R>
+__attribute__((noinline, cold)) void report1(Ctx const& c, char const* sit, Arg x, R o, R e)
+{
+    c.report(sit, sym(o, e), "x=" + show(x), show(o), show(e));
+}
+template <class R>
+__attribute__((noinline, cold)) void report2(Ctx const& c, char const* sit, Arg x, Arg y, R o, R e)
+{
+    c.report(sit, sym(o, e), "x=" + show(x) + " y=" + show(y), show(o), show(e));
+}
+__attribute__((noinline, cold)) inline void trace_args(Ctx const& c, Arg x, Arg const* y)
+{
+    std::fprintf(stderr, "    %s x=%s%s%s\n", c.t.label.c_str(), show(x).c_str(), y ? " y=" : "", y ? show(*y).c_str() : "");
+}
+template <class R>
+__attribute__((noinline, cold)) void sample1(Task const& t, BlockDesc const& b, Arg x, R r)
+{
+    vf::sample(t.label.c_str(), "%s x=%s -> %s  [%s block of %u values]", t.op.c_str(), show(x).c_str(), show(r).c_str(), b.cls, b.yhi - b.ylo);
+}
+template <class R>
+__attribute__((noinline, cold)) void sample2(Task const& t, BlockDesc const& b, Arg x, Arg y, R r, std::size_t nx)
+{
+    vf::sample(t.label.c_str(), "%s x=%s y=%s -> %s  [%s block: %zu x %u tuples]", t.op.c_str(), show(x).c_str(), show(y).c_str(), show(r).c_str(),
+        b.cls, nx, b.yhi - b.ylo);
+}
+
 // ---- unary
 template <class Op>
 inline void eval1(Ctx& c, typename Op::A x)
 {
     using R = typename Op::R;
-    if (c.trace) { std::fprintf(stderr, "    %s x=%s\n", c.t.label.c_str(), show(x).c_str()); }
+    if (c.trace) { trace_args(c, arg(x), nullptr); }
     R e = Op::ref(x);
     R o = Op::impl(x);
-    if (!same(o, e)) { c.report(Op::sit(x), sym(o, e), "x=" + show(x), show(o), show(e)); }
+    if (!same(o, e)) { report1<R>(c, Op::sit(x), arg(x), o, e); }
 }
 template <class Op>
 void run_unary(Task const& t, int block, vf::Case& cs)
@@ -510,8 +554,7 @@ void run_unary(Task const& t, int block, vf::Case& cs)
             eval1<Op>(c, x);
             ++c.evals;
             if (!sampled && (x > A(1) || i + 1 == b.yhi)) {
-                vf::sample(t.label.c_str(), "%s x=%s -> %s  [%s block of %u values]", t.op.c_str(), show(x).c_str(), show(Op::ref(x)).c_str(),
-                    b.cls, b.yhi - b.ylo);
+                sample1<typename Op::R>(t, b, arg(x), Op::ref(x));
                 sampled = true;
             }
         }
@@ -553,10 +596,13 @@ template <class Op>
 inline void eval2(Ctx& c, typename Op::A x, typename Op::B y)
 {
     using R = typename Op::R;
-    if (c.trace) { std::fprintf(stderr, "    %s x=%s y=%s\n", c.t.label.c_str(), show(x).c_str(), show(y).c_str()); }
+    if (c.trace) {
+        Arg ya = arg(y);
+        trace_args(c, arg(x), &ya);
+    }
     R e = Op::ref(x, y);
     R o = Op::impl(x, y);
-    if (!same(o, e)) { c.report(Op::sit(x, y), sym(o, e), "x=" + show(x) + " y=" + show(y), show(o), show(e)); }
+    if (!same(o, e)) { report2<R>(c, Op::sit(x, y), arg(x), arg(y), o, e); }
 }
 template <class Op>
 std::vector<typename Op::B> const& yvals(VK k)
@@ -599,8 +645,7 @@ void run_binary(Task const& t, int block, vf::Case& cs)
             if (!sampled && c.evals > 0) {
                 A x = xs[xs.size() / 3];
                 if (Op::dom(x, y)) {
-                    vf::sample(t.label.c_str(), "%s x=%s y=%s -> %s  [%s block: %zu x %u tuples]", t.op.c_str(), show(x).c_str(), show(y).c_str(),
-                        show(Op::ref(x, y)).c_str(), b.cls, xs.size(), b.yhi - b.ylo);
+                    sample2<typename Op::R>(t, b, arg(x), arg(y), Op::ref(x, y), xs.size());
                     sampled = true;
                 }
             }
